@@ -7,13 +7,14 @@ func init() {
 			"(ORDER) every trip's StopTimes is sorted by an unconditional sort.Slice, in a loop over the id map filled from all trips, after the row loop; the rows of each shape are sorted before its points are built; shapes are sorted by id (G6: the map key); " +
 			"(CMP) each comparator indexes the very slice being sorted with its i, j and compares one key (StopSequence / ShapePtSequence / ID) with <; " +
 			"file-order collections (agencies, routes, stops, transfers, trips, frequencies, added/removed dates) are built only by appending one element at the end and are never sorted; " +
-			"(PREALLOC) a trip's StopTimes is replaced by a pre-allocated slice only while it is still empty, so interleaved rows lose nothing -- also when the store sits in a closure or helper that the row loop calls (any store into a slice field of an entity that outlives the row must extend the field's own value or be guarded by its emptiness); (CACHE) the current-trip cache changes pointer and key together, from one lookup. " +
+			"(PREALLOC) a trip's StopTimes is replaced by a pre-allocated slice only while it is still empty, so interleaved rows lose nothing -- also when the store sits in a closure or helper that the row loop calls (any store into a slice field of an entity that outlives the row must extend the field's own value or be guarded by its emptiness); (CACHE) the current-trip cache changes pointer and key together, from one lookup; (KEY) a string map key put together from several variable parts has a constant separator between them (otherwise two rows can collide and row order decides which survives). " +
 			"(PHASE) no collection of the result is sorted in a later phase of the file table than one in which addresses of its elements were kept (the sort would move other entities under those pointers). Not decided: sort.Slice itself; equal sequence numbers (excluded by the property).",
 		Rules: []Rule{
 			{Name: "SCAN", Doc: "a loop that does something for each element is not left early (no break out of a processing loop)", MinInstances: 1, Run: func(c *Ctx) { runFullScan(c, staticParseFns(c), "SCAN") }},
 			{Name: "ORDER", Doc: "per-group sorts, comparators, tail appends, pre-allocation guard, cache coherence", MinInstances: 8, Run: runStaticOrder},
 			{Name: "G6", Doc: "map-built output sorted by key", MinInstances: 2, Run: func(c *Ctx) { runG6(c, staticParseFns(c)) }},
 			{Name: "PHASE", Doc: "a result collection is not sorted after addresses of its elements were kept", MinInstances: 1, Run: func(c *Ctx) { runSortAfterAddress(c, "PHASE") }},
+			{Name: "KEY", Doc: "a map key built from several parts keeps them apart (a colliding key makes which row survives depend on row order)", MinInstances: 1, Run: func(c *Ctx) { runCompositeKeys(c, "KEY") }},
 		},
 	})
 }
